@@ -172,6 +172,9 @@ def check_value_equivalence(ctx):
                 want_calls = {main}                              # generic fold (or guarded shortcut + generic fold elsewhere)
                 if icall is not None and RANK1_ALIASES.get(icall) != main and icall != main:
                     problems.append(f"interpreter shortcut {icall} under {extra} is not the {main} the generic fold computes")
+                if icall is not None and icall in RANK1_ALIASES and icall != main and 'a.ndim == 1' not in extra:
+                    problems.append(f"interpreter shortcut {icall} (the extremum of the WHOLE array) under {extra} is not restricted to rank 1, where alone it is "
+                                    f"the {main} of the fold (I4)")
             canon = lambda c: RANK1_ALIASES.get(c, c)
             if t in want_calls:
                 pass
